@@ -107,6 +107,11 @@ pub fn untrusted(st: &Step) -> bool {
     )
 }
 
+/// plain prehashed verification with a context longer than the documented 255 bytes
+fn unlogged(st: &Step) -> bool {
+    matches!(st, Step::Ver { mode, ctx: Some(c), .. } if c.0.len() > 255 && matches!(mode, 3 | 4 | 6 | 10 | 11))
+}
+
 fn class_of(step: &Step, label: &str) -> String {
     format!("{}:{}", step.kind(), label)
 }
@@ -196,6 +201,9 @@ fn one(w: &mut World, i: usize, st: &Step, c: &mut Counters) -> Result<Option<(u
             }
             let cls_h = simcore::fnv1a(&cls);
             match ro.diff(&mo) {
+                // executed only to see that it returns (outside the documented domain, and not executed at all in
+                // checked builds): kept out of the event log so that logs stay comparable across profiles
+                None if unlogged(st) => Ok(None),
                 None => Ok(Some((h, cls_h))),
                 Some(d) => {
                     bump(c, "outcome:mismatch");
